@@ -93,7 +93,8 @@ def agree(spec):
     elif mode == "3-point":
         allowed = 5.0 * hv * hv * d3 / 3.0 + 50.0 * noise + 1e-9 * gscale
     else:
-        allowed = np.full(xr.size, 1e-10 * gscale)
+        # (complex step: exact up to the rounding of the evaluation itself, eps*|x| in the argument of the objective)
+        allowed = np.full(xr.size, 1e-10 * gscale * (1.0 + float(np.max(np.abs(xr)))))
     # (along a variable with lb == ub nothing can be differenced and nothing is needed: not compared)
     mov = (np.asarray(p.ub) - np.asarray(p.lb)) > 20.0 * hv      # (nor along a variable whose box leaves no room for the stencil)
     err = np.abs(np.asarray(rfd.jac, float) / sfac - gex)
@@ -130,6 +131,10 @@ def agree_specs(ctx):
             out[-1]["kwargs"]["eps"] = float(rng.choice([1e-6, 1e-7]))
         elif mode in ("2-point", "3-point") and i % 8 in (1, 2):
             out[-1]["kwargs"]["finite_diff_rel_step"] = float(rng.choice([1e-5, 1e-6]))
+        if "shift" in out[-1]:
+            # the solution itself lies far from the origin: a coarse RELATIVE step is a coarse absolute step there (h = 1e-5 * 1000)
+            # and limits the accuracy of the solution by design; the translated problems use the default steps
+            out[-1]["kwargs"].pop("finite_diff_rel_step", None)
     return out
 
 
